@@ -71,7 +71,8 @@ type c08ACase struct {
 func c08GenA(t *rapid.T) c08ACase {
 	kinds := []string{"ConfigMap", "Secret", "Service", "Deployment", "Namespace", "Zebra", "Alpha", "Job", "ServiceAccount", "Ingress"}
 	seps := []string{"\n---\n", "\n--- \n", "\r\n---\r\n", "\n---\n---\n", "\n\n---\n\n", "\n---  \t\n"}
-	hooks := []string{"", "", "", "pre-install", "post-upgrade,pre-rollback", "bogus", "pre-install,bogus", "bogus,post-delete", " Pre-Install ", "test", "crd-install"}
+	// ("" = no annotation at all; "<empty>" = the annotation is there and holds nothing - an event name that is not known)
+	hooks := []string{"", "", "", "pre-install", "post-upgrade,pre-rollback", "bogus", "pre-install,bogus", "bogus,post-delete", " Pre-Install ", "test", "crd-install", "<empty>", "pre-install,", " "}
 	names := []string{"templates/a.yaml", "templates/b.yaml", "templates/sub/c.yaml", "templates/_p.tpl", "templates/NOTES.txt", "templates/z.yml", "templates/sub/NOTES.txt", "templates/0.yaml"}
 	var c c08ACase
 	id := 0
@@ -100,7 +101,11 @@ func c08GenA(t *rapid.T) c08ACase {
 				g.Hook = rapid.SampledFrom(hooks).Draw(t, "hook")
 				ann := ""
 				if g.Hook != "" {
-					ann = fmt.Sprintf("  annotations:\n    \"helm.sh/hook\": %q\n    \"helm.sh/hook-weight\": \"%d\"\n", g.Hook, rapid.IntRange(-2, 2).Draw(t, "weight"))
+					val := g.Hook
+					if val == "<empty>" {
+						val = ""
+					}
+					ann = fmt.Sprintf("  annotations:\n    \"helm.sh/hook\": %q\n    \"helm.sh/hook-weight\": \"%d\"\n", val, rapid.IntRange(-2, 2).Draw(t, "weight"))
 					if rapid.Bool().Draw(t, "deletePolicy") {
 						ann += "    \"helm.sh/hook-delete-policy\": hook-succeeded\n"
 					}
@@ -114,7 +119,7 @@ func c08GenA(t *rapid.T) c08ACase {
 				g.Class = "generic"
 				if g.Hook != "" {
 					g.Class = "hook"
-					for _, e := range strings.Split(g.Hook, ",") {
+					for _, e := range strings.Split(strings.TrimPrefix(g.Hook, "<empty>"), ",") {
 						if !c08KnownEvents[strings.ToLower(strings.TrimSpace(e))] {
 							g.Class = "dropped" // a document naming an unknown event is dropped
 						}
